@@ -101,6 +101,7 @@ def check_requirement(F, f, block, req):
        infn:<function>|<requirement> the requirement holds in another function (cross-function invariants)
        adjacent:<A>|<B>              after every call to A the next call to a method of the same type is B (nothing runs in between)
        armpass:<E>::<V>|<callee>|<gate>  every path from the <V> arm to the next loop iteration calls callee (or the gate was off)
+       operand:<Op>|<l>|<r>          the operands of the site's binary Op are results of the named callees (`#pos`: with a positive literal)
        argfrom:<n>|<callee,alts>     argument n of the site's call is (computed from) the result of one of the callees
        paired:<A>|<B>|<const>        every call to A is dominated by a call to B that carries the constant <const>
                                      and acts on the same parameter as A's receiver (A must occur)"""
@@ -128,6 +129,29 @@ def check_requirement(F, f, block, req):
             if bad:
                 return False, (f"after the `{variant}` arm (entered at {f.where(s_)}) the loop can go on to {f.where(bad[0])} without calling `{callee}` "
                                f"although the `{gate}` test did not fail")
+        return True, ""
+    if kind == "operand":
+        # operand:<Op>|<l-root>|<r-root>: both operands of the site's binary <Op> are, at the root of their resolved expression, the result
+        # of the named callee (`-` = anything). `cmp::max#pos` additionally wants a non-zero literal among max's arguments.
+        op, lroot, rroot = req[len("operand:"):].split("|")
+        hits = [s for s in f.blocks[block]["stmts"] if s["k"] == "assign" and s["rv"]["k"] == "bin" and s["rv"]["op"].startswith(op)]
+        if not hits:
+            return False, f"anchor-missing: no `{op}` at {f.where(block)}"
+        for s in hits:
+            for side, want in (("l", lroot), ("r", rroot)):
+                if want == "-":
+                    continue
+                name, _, flag = want.partition("#")
+                e = resolve(f, s["rv"][side])
+                names = name.split(",")
+                is_call = isinstance(e, tuple) and e and e[0] == "call" and any(_suffix(e[1], n_) for n_ in names)
+                is_cast = isinstance(e, tuple) and e and e[0] == "cast" and f"cast:{e[3]}" in names      # `b as usize` for usize::from(b)
+                if not (is_call or is_cast):
+                    return False, f"the {'minuend' if side == 'l' else 'subtrahend'} of `{op}` is `{show(e)[:100]}`, not a result of {name}"
+                if flag == "pos":
+                    lits = [a for a in e[2] if isinstance(a, tuple) and a and a[0] == "const" and str(a[1].get("bits")) not in ("0", "None")]
+                    if not lits:
+                        return False, f"`{show(e)[:100]}` has no positive literal argument: the result may be 0"
         return True, ""
     if kind == "argfrom":
         n, alts = req[len("argfrom:"):].split("|", 1)
